@@ -84,6 +84,24 @@ Proof.
   exists d, v. repeat split; try assumption. exact (transform_and_write_effects _ _ _ _ Ht).
 Qed.
 
+(* a write whose transform fails to evaluate on the value, or whose result cannot be coerced to the port type, is refused:
+   error answer, no driver call *)
+Theorem failing_transform_refused :
+  forall r d j v t,
+    j_py j = Some v -> p_transform d = Some t ->
+    (t v = TErr \/ exists x, t v = TVal x /\ coerce d x = None) ->
+    exists e, patch_value r (Some d) j = (Rejected e, []).
+Proof.
+  intros r d j v t Hv Ht Hf. destruct (patch_value r (Some d) j) as [o es] eqn:E.
+  pose proof (patch_value_cases _ _ _ _ _ E) as C. destruct o as [|e]; [|exists e; rewrite C; reflexivity].
+  exfalso. destruct C as (d' & v' & Hd & Hv' & _ & _ & _ & Hw). inversion Hd; subst d'. rewrite Hv in Hv'. inversion Hv'; subst v'.
+  pose proof (transform_and_write_effects _ _ _ _ Hw) as [[Hn _]|[(t' & x & w & Ht' & Htv & Hc & _)|(t' & Ht' & Htv & _)]].
+  - rewrite Ht in Hn. discriminate Hn.
+  - rewrite Ht in Ht'. inversion Ht'; subst t'. destruct Hf as [Hf|(x' & Hx & Hc')]; rewrite Htv in *; [discriminate Hf|].
+    inversion Hx; subst x'. rewrite Hc in Hc'. discriminate Hc'.
+  - rewrite Ht in Ht'. inversion Ht'; subst t'. destruct Hf as [Hf|(x' & Hx & _)]; rewrite Htv in *; discriminate.
+Qed.
+
 (* an accepted write passed every check, in particular enabled and writable *)
 Theorem accepted_checks :
   forall r p j, model_accepts r p j = true ->
